@@ -29,6 +29,18 @@ Definition supported (k : mkind) (p : formula) : bool :=
   | DenseOn => past_only p && no_sample_ops p
   end.
 
+(* pastify() removes next / s_next by delaying every other operand by one sampling period; dense time has no
+   sampling period (next is rejected there), so a dense-time monitor has to reject them at pastify() instead of
+   yielding a value: support of the pastified form q = pastify p, and no sample operator in p itself *)
+Definition supported_pastified (k : mkind) (p q : formula) : bool :=
+  supported k q && match k with DenseOff | DenseOn => no_sample_ops p | _ => true end.
+
+Theorem pastified_sample_ops_rejected k p q :
+  k = DenseOff \/ k = DenseOn -> no_sample_ops p = false -> supported_pastified k p q = false.
+Proof. intros [-> | ->] H; unfold supported_pastified; rewrite H; apply andb_false_r. Qed.
+Theorem pastified_discrete k p q : k = DiscOff \/ k = DiscOn -> supported_pastified k p q = supported k q.
+Proof. intros [-> | ->]; unfold supported_pastified; apply andb_true_r. Qed.
+
 (* outcome class of the first evaluate()/update() on well-formed data *)
 Definition first_eval (k : mkind) (p : formula) : outcome unit :=
   if supported k p then Ok tt else Rtamt.
